@@ -287,7 +287,8 @@ func (v verifier) doVerifyVP(vcVerifier Verifier, presentation vc.VerifiablePres
 			if presentation.Holder != nil && presentation.Holder.String() == current.Issuer.String() {
 				// self-attested VC: https://www.w3.org/TR/vc-data-model-2.0/#presentations-including-holder-claims
 				// These don't need a proof, since they're already protected by the VP's proof.
-				checkSignature = len(current.Proof) > 0
+				// JWT credentials are always signed (and don't have a proof property), so their signature can and must always be checked.
+				checkSignature = len(current.Proof) > 0 || current.Format() == vc.JWTCredentialProofFormat
 				if !checkSignature && presentation.Format() == vc.JSONLDPresentationProofFormat && current.Format() == vc.JSONLDCredentialProofFormat {
 					// Only protected by the VP's JSON-LD proof, which does not cover members that are not defined by the JSON-LD context.
 					if err = v.signatureVerifier.allFieldsDefined(current); err != nil {
